@@ -27,7 +27,7 @@ Streams and violation keys (stable; matched against known_findings.json):
                                squared distances, tree back-end distances (F5)
   nnmodel:tree-backend / simpleNN:prediction   other prediction mismatches
 """
-import os, sys, re, math
+import os, sys, re, math, random
 sys.path.insert(0, os.path.dirname(os.path.abspath(__file__)))
 from vlib import *
 
@@ -106,12 +106,30 @@ def gen_points(rng, big):
         pts = [list(rng.choice(base)) for _ in range(n)]
     return dim, pts
 
-def gen_queries(rng, c, tree, m):
+def proj_plane_query(rng, c, ptree):
+    """a query (half units) exactly on a splitting hyper-surface of a projection tree: the midpoint of the left point with the
+    largest and the right point with the smallest projection (funct is affine for LC trees and for KHC trees with the linear
+    kernel, so funct(midpoint) = threshold in exact arithmetic); for the polynomial kernel the midpoint of two data points"""
+    pts = c["pts"]; inner = ptree_inner(ptree)
+    if not inner or c["kind"] == "khc2":
+        a, b = rng.choice(pts), rng.choice(pts); return [x + y for x, y in zip(a, b)]
+    nd = rng.choice(inner); f = nd[1]
+    if c["kind"] == "lc": w = [float(x) for x in f[1].split(",")]
+    else: w = [x - y for x, y in zip(pts[int(f[1])], pts[int(f[2])])]
+    fv = lambda i: sum(a * b for a, b in zip(w, pts[i]))
+    li = [i for l in ptree_leaves(nd[2]) for i in l]; ri = [i for l in ptree_leaves(nd[3]) for i in l]
+    pl = max(li, key=fv); pr = min(ri, key=fv)
+    h = [x + y for x, y in zip(pts[pl], pts[pr])]
+    if rng.random() < 0.3: h[rng.randrange(len(h))] += rng.choice([-1, 1])
+    return h
+
+def gen_queries(rng, c, tree, m, ptree=None):
     dim, pts = c["dim"], c["pts"]; qs = []
     planes = tree_planes(tree) if tree else []
     for _ in range(m):
         r = rng.random()
-        if r < 0.3: q = [rng.randint(-45, 45) for _ in range(dim)]                       # inside, half units
+        if ptree is not None and 0.55 <= r < 0.85: q = proj_plane_query(rng, c, ptree)
+        elif r < 0.3: q = [rng.randint(-45, 45) for _ in range(dim)]                       # inside, half units
         elif r < 0.4: q = [2 * x for x in rng.choice(pts)]                               # a data point
         elif r < 0.55: q = [rng.choice([-1, 1]) * rng.randint(300, 2000) if rng.random() < 0.7 else rng.randint(-40, 40) for _ in range(dim)]  # far outside
         elif r < 0.85 and planes:                                                        # on / next to a splitting plane
@@ -136,8 +154,36 @@ def parse_q(o):
     d = {}
     for tok in o.split()[1:]:
         k, v = tok.split("=", 1)
+        if k in ("lb", "fp"): continue                      # projection trees: per-node bounds / plane distances (parse_aux)
         d[k] = [tuple(x.split(":")) for x in v.split(";")] if v else []
     return d
+
+def parse_aux(o):
+    """lb= (squaredDistanceLowerBound of every node, pre-order) and fp= (distanceFromPlane of every inner node)"""
+    r = {}
+    for tok in o.split()[1:]:
+        k, v = tok.split("=", 1)
+        if k in ("lb", "fp"): r[k] = [] if v in ("", "-") else [float(x) for x in v.split(",")]
+    return r
+
+def parse_ptree(s):
+    """L i,j | N[a;b;..](left)(right)  ->  ("L", [i..]) | ("N", [fields], left, right)"""
+    def go(i):
+        if s[i] == "L":
+            j = i + 1
+            while j < len(s) and (s[j].isdigit() or s[j] == ","): j += 1
+            return ("L", [int(x) for x in s[i + 1:j].split(",")]), j
+        assert s[i:i + 2] == "N["; j = s.index("]", i)
+        f = s[i + 2:j].split(";"); assert s[j + 1] == "("
+        l, j = go(j + 2); assert s[j:j + 2] == ")("; r, j = go(j + 2); assert s[j] == ")"
+        return ("N", f, l, r), j + 1
+    return go(0)[0]
+
+def ptree_leaves(t):
+    return [t[1]] if t[0] == "L" else ptree_leaves(t[2]) + ptree_leaves(t[3])
+
+def ptree_inner(t):
+    return [] if t[0] == "L" else [t] + ptree_inner(t[2]) + ptree_inner(t[3])
 
 def impl_meta(o):
     m = re.search(r"misplaced=(\d+)", o)
@@ -149,7 +195,7 @@ def monitor_case(c, out):
     if not out or not out[0].startswith("D n="):
         return [("harness", "no tree built: %s" % (out[0] if out else "<nothing>"))]
     mis = impl_meta(out[0]); n = len(c["pts"])
-    mt = re.search(r"tree=(\S+)", out[0])
+    mt = re.search(r"\btree=(\S+)", out[0])
     if c["kind"] == "kd" and mt:
         bad = build_wf_monitor(c, parse_tree(mt.group(1)))
         if bad: msgs.append(("tree:build-wf kd", "KDTree(%d points, dim %d, bucket %d) tree=%s: %s" % (n, c["dim"], c["bucket"], mt.group(1), bad)))
@@ -291,8 +337,8 @@ def main():
                 dim, pts = gen_points(rng, big)
                 while len(set(map(tuple, pts))) < 2: dim, pts = gen_points(rng, big)     # single-leaf trees have their own stream
                 if kind == "khc2": pts = [[max(-6, min(6, x)) for x in p] for p in pts]
-                if kind in ("lc", "khc", "khc2"):                                        # duplicates crash these constructors: own stream below
-                    pts = [list(p) for p in dict.fromkeys(map(tuple, pts))]
+                # (before the repairs bfc526b8 / c6ff0316 duplicates crashed the LC / KHC constructors and these streams were
+                #  de-duplicated; now duplicates, collinear points and points on the cutting hyper-surface stay in)
                 b = bucket if bucket == 0 else rng.choice([b for b in (2, 3, 4, 8) if b < len(pts)] or [0])
                 fresh.append(({"kind": kind.replace("P", ""), "bucket": b, "dim": dim, "pts": pts, "body": []}, nq, kind.endswith("P")))
         for kind in ("lc", "khc", "khc2"):                                             # duplicate points in LC / KHC trees
@@ -303,13 +349,34 @@ def main():
             for n in (1, 3):
                 p = [rng.randint(-5, 5) for _ in range(2)]
                 fresh.append(({"kind": kind, "bucket": 0, "dim": 2, "pts": [list(p) for _ in range(n)], "body": []}, 2, False))
+        # extension streams for the projection trees (own random stream: the streams above stay as they were)
+        rx = random.Random(rng.randint(0, 2 ** 30) ^ 0x17C17)
+        for kind in ("lc", "khc", "khc2"):
+            for n, eq in ((1, True), (2, True), (2, False), (3, False)):                   # n = 1, 2, all points equal
+                d = rx.choice([1, 2, 3]); p = [rx.randint(-5, 5) for _ in range(d)]
+                pts = [list(p) for _ in range(n)] if eq else [[x + (i if j == 0 else 0) for j, x in enumerate(p)] for i in range(n)]
+                fresh.append(({"kind": kind, "bucket": 0, "dim": d, "pts": pts, "body": []}, 3, False))
+            for _ in range(6 if not big else 40):                                          # more than CuttingAccuracy = 25 points: sampled cut direction
+                d = rx.choice([1, 2, 2, 3]); n = rx.randint(26, 44); st = rx.random()
+                if st < 0.35: pts = [[rx.randint(-1, 1) for _ in range(d)] for _ in range(n)]              # heavy duplicates
+                elif st < 0.6:                                                                               # one value, few exceptions (degenerate sample, repair c6ff0316)
+                    p = [rx.randint(-3, 3) for _ in range(d)]; pts = [list(p) for _ in range(n)]
+                    for _ in range(rx.randint(1, 3)): pts[rx.randrange(n)] = [rx.randint(-6, 6) for _ in range(d)]
+                elif st < 0.8:                                                                               # collinear
+                    a = [rx.randint(-3, 3) for _ in range(d)]; b = [rx.randint(-1, 1) for _ in range(d)]
+                    pts = [[a[j] + t * b[j] for j in range(d)] for t in (rx.randint(-6, 6) for _ in range(n))]
+                else: pts = [[rx.randint(-6, 6) for _ in range(d)] for _ in range(n)]
+                fresh.append(({"kind": kind, "bucket": 0, "dim": d, "pts": pts, "body": []}, 3, False))
         # phase 1: build the trees only, to aim queries at the real splitting planes
         o1 = run_impl([c for c, _, _ in fresh], "phase1")
         for (c, nq, isP), (o, rc, e) in zip(fresh, o1):
             tree = None
-            if rc == 0 and o and "tree=" in o[0]:
-                tree = parse_tree(re.search(r"tree=(\S+)", o[0]).group(1))
-            qs = gen_queries(rng, c, tree, nq)
+            ptree = None
+            if rc == 0 and o and re.search(r"\btree=", o[0]):
+                tree = parse_tree(re.search(r"\btree=(\S+)", o[0]).group(1))
+            if rc == 0 and o and "ptree=" in o[0]:
+                ptree = parse_ptree(re.search(r"ptree=(\S+)", o[0]).group(1))
+            qs = gen_queries(rng, c, tree, nq, ptree)
             if c["kind"] == "khc2": qs = ["Q " + " ".join(str(max(-120, min(120, int(x)))) for x in q.split()[1:]) for q in qs]
             if isP:
                 n = len(c["pts"])
@@ -335,7 +402,7 @@ def main():
     # ---- correspondence on the kd/default stream -----------------------------------------------
     kd = [ci for ci, c in enumerate(cases) if c["kind"] == "kd" and c["bucket"] == 0 and io[ci][1] == 0 and any(l.startswith("Q") for l in c["body"])]
     def model_lines(c, implD):
-        m = re.search(r"tree=(\S+)", implD); nth = re.search(r"nth=(\S+)", implD)
+        m = re.search(r"\btree=(\S+)", implD); nth = re.search(r"nth=(\S+)", implD)
         return [dline(c, m.group(1) + (" nth=" + nth.group(1) if nth else ""))] + [l for l in c["body"] if l.startswith("Q")]
     mo = run_cases(model, [model_lines(cases[ci], io[ci][0][0]) for ci in kd], os.path.join(tmpd, "all_model.txt"))
     dis = []; ntie_free = 0; nq = 0; notwf = 0
@@ -345,7 +412,7 @@ def main():
         left/right index set of every node (leaves compared as sets)"""
         f = dict(x.split("=", 1) for x in md.split() if "=" in x)
         if "built" not in f: return "construction: the model driver printed no built tree: %s" % md[:200]
-        real = tree_canon(parse_tree(re.search(r"tree=(\S+)", implD).group(1)))
+        real = tree_canon(parse_tree(re.search(r"\btree=(\S+)", implD).group(1)))
         if f["built"] != real: return "construction: model tree %s / real tree %s" % (f["built"], real)
         if f["oracle"] != "ok": return "construction: recorded std::nth_element result rejected: %s (%s)" % (f["oracle"], re.search(r"nth=(\S+)", implD).group(1)[:300])
         u, k = f["calls"].split("/")
@@ -379,6 +446,84 @@ def main():
         implq = [io[ci][0][0]] + [o for l, o in zip(cases[ci]["body"], io[ci][0][1:]) if l.startswith("Q")]
         why = differs(cases[ci], a, implq)
         if why: dis.append((ci, why))
+
+
+    # ---- correspondence on the projection trees (LC, KHC linear, KHC polynomial), default construction ------------
+    # the extracted C17Proj / C17Gen model runs, in exact rational arithmetic, on the tree the real constructor built
+    # (node data dumped as %.17g: thresholds, normals, anchor indices, m_normalInvNorm) and must reproduce
+    #   * squaredDistanceLowerBound(q) of every node and distanceFromPlane(q) of every inner node (relative 1e-12),
+    #   * every result of IterativeNNQuery::next / getNeighbors (exact 16 d^2, indices up to ties),
+    #   * queue size and radius after every call when no decision of the search is within 1e-9 of a tie,
+    # and the real tree must pass the extracted pwf_treeb and the unit-norm check |funct gradient|^2 = 1 (1e-12).
+    pj = [ci for ci, c in enumerate(cases) if c["kind"] in ("lc", "khc", "khc2") and c["bucket"] == 0 and io[ci][1] == 0
+          and io[ci][0] and "ptree=" in io[ci][0][0] and any(l.startswith("Q") for l in c["body"])]
+    def pmodel_lines(c, implD):
+        return [dline(c) + " | ptree=" + re.search(r"ptree=(\S+)", implD).group(1)] + [l for l in c["body"] if l.startswith("Q")]
+    pstat = {"trees": 0, "queries": 0, "node_bounds": 0, "plane_distances": 0, "trace_compared": 0, "max_rel_err_bound": 0.0, "nodes_norm_gt_1": 0, "inner_nodes": 0, "trees_wf_up_to_rounding": 0}
+    def fclose(x, y, tol=1e-12):
+        return abs(x - y) <= tol * (1.0 + max(abs(x), abs(y)))
+    def proj_differs(c, a, b, count=True):
+        """a: model lines, b: implementation lines (D + Q lines)"""
+        if len(a) != len(b): return "model printed %d lines, implementation %d" % (len(a), len(b))
+        f = dict(x.split("=", 1) for x in a[0].split()[1:] if "=" in x)
+        if f.get("wf") != "WF":
+            # exact evaluation of funct on the stored doubles: a point whose projection ties with the threshold in exact arithmetic
+            # may sit a rounding error (<= 1e-12) on the other side; anything larger is a misplaced point
+            if not (0.0 < float(f.get("slack", "1")) <= 1e-12): return "ptree-wf: the extracted pwf_treeb rejects the real %s tree (a point on the wrong side of a cut by %s, or a leaf with different points): %s" % (c["kind"], f.get("slack"), b[0][:300])
+            if count: pstat["trees_wf_up_to_rounding"] += 1
+        if f.get("partition") != "ok": return "ptree-wf: the leaves of the real %s tree are not a partition of 0..n-1: %s" % (c["kind"], b[0][:300])
+        units = [] if f.get("unit", "-") == "-" else [float(x) for x in f["unit"].split(",")]
+        for u in units:
+            if not abs(u - 1.0) <= 1e-12: return "unit-norm: a node of the real %s tree has squared gradient norm %r of funct (must be 1): %s" % (c["kind"], u, b[0][:300])
+        n = len(c["pts"])
+        for l, x, y in zip([l for l in c["body"] if l.startswith("Q")], a[1:], b[1:]):
+            ax, ay = parse_aux(x), parse_aux(y)
+            for key, what in (("lb", "squaredDistanceLowerBound"), ("fp", "distanceFromPlane")):
+                if len(ax.get(key, [])) != len(ay.get(key, [None])): return "%s: %s lists differ in length: model %s / implementation %s" % (l, what, x[:200], y[:200])
+                for j, (u, v) in enumerate(zip(ax[key], ay[key])):
+                    if not fclose(u, v): return "%s: %s of node #%d (pre-order): model %r / implementation %r" % (l, what, j, u, v)
+                    if count and key == "lb" and max(abs(u), abs(v)) > 1e-6: pstat["max_rel_err_bound"] = max(pstat["max_rel_err_bound"], abs(u - v) / max(abs(u), abs(v)))
+            h = list(map(int, l.split()[1:])); tr = true16(c, h)
+            dx, dy = parse_q(x), parse_q(y)
+            def groups(it):
+                res = []; j = 0
+                while j < len(it):
+                    e = j
+                    while e < len(it) and it[e][0] == it[j][0]: e += 1
+                    res.append((it[j][0], sorted(int(z[1]) for z in it[j:e]))); j = e
+                return res
+            if groups(dx.get("it", [])) != groups(dy.get("it", [])): return "%s: results of next(): model %s / implementation %s" % (l, x[:300], y[:300])
+            st = sorted(tr)
+            for k in dy:
+                if k == "it": continue
+                K = int(k[1:]); cut = K < n and st[K - 1] == st[K]
+                cx = sorted((z[0], int(z[1])) for z in dx.get(k, []) if not (cut and int(z[0]) == st[K - 1]))
+                cy = sorted((z[0], int(z[1])) for z in dy[k] if not (cut and int(z[0]) == st[K - 1]))
+                if [z[0] for z in dx.get(k, [])] != [z[0] for z in dy[k]] or cx != cy: return "%s: getNeighbors(%s): model %s / implementation %s" % (l, k, dx.get(k), dy[k])
+            # queue size and radius: only when the run is deterministic and no comparison of the search is near a tie
+            byd = {}
+            for i in range(n): byd.setdefault(tr[i], set()).add(tuple(c["pts"][i]))
+            tiefree = all(len(v) == 1 for v in byd.values())
+            near = any(abs(16.0 * lbv - t) <= 1e-9 * (1.0 + t) for lbv in ay["lb"] for t in tr) or any(abs(v) <= 1e-9 for v in ay["fp"])
+            if tiefree and not near:
+                tx = [(z[2], z[3]) for z in dx["it"]]; ty = [(z[2], z[3]) for z in dy["it"]]
+                for j, ((qa, ra), (qb, rb)) in enumerate(zip(tx, ty)):
+                    if qa != qb or (ra == "inf") != (rb == "inf") or (ra != "inf" and not fclose(float(ra), float(rb))):
+                        return "%s: after call %d of next(): queue size / radius model %s:%s / implementation %s:%s" % (l, j + 1, qa, ra, qb, rb)
+                if count: pstat["trace_compared"] += 1
+            if count:
+                pstat["queries"] += 1; pstat["node_bounds"] += len(ay["lb"]); pstat["plane_distances"] += len(ay["fp"])
+        if count:
+            pstat["trees"] += 1; pstat["inner_nodes"] += len(units); pstat["nodes_norm_gt_1"] += sum(1 for u in units if u > 1.0)
+        return None
+    pmo = run_cases(model, [pmodel_lines(cases[ci], io[ci][0][0]) for ci in pj], os.path.join(tmpd, "proj_model.txt"))
+    pdis = []
+    for ci, (a, rca, ea) in zip(pj, pmo):
+        if rca != 0: raise RuntimeError("model driver failed on projection-tree case %d: %s" % (ci, ea))
+        if ci in mon_failed_cases: continue
+        implq = [io[ci][0][0]] + [o for l, o in zip(cases[ci]["body"], io[ci][0][1:]) if l.startswith("Q")]
+        why = proj_differs(cases[ci], a, implq)
+        if why: pdis.append((ci, why))
 
     # ---- reporting -----------------------------------------------------------------------------
     def fails_with(c, key):
@@ -416,7 +561,7 @@ def main():
         if not unknown_mon:
             # search: many more queries on the disagreeing data sets
             for ci, why in dis[:5]:
-                c = dict(cases[ci]); t = parse_tree(re.search(r"tree=(\S+)", io[ci][0][0]).group(1))
+                c = dict(cases[ci]); t = parse_tree(re.search(r"\btree=(\S+)", io[ci][0][0]).group(1))
                 c["body"] = gen_queries(rng, c, t, 300)
                 ms = [(k, m) for k, m in case_failures(c, run_impl([c], "search")[0]) if ck.match_known(k) is None]
                 if ms:
@@ -457,6 +602,44 @@ def main():
     ck.oblige("correspondence C17Build.kd_build (oracle = recorded std::nth_element results) vs KDTree::buildTree on %d data sets: cut dimension, threshold, left/right index sets of %d inner nodes; %d recorded nth_element results pass median_okb"
               % (bstat["trees"], bstat["inner_nodes"], bstat["nth_calls"]), not [d for d in dis if d[1].startswith("construction")] and (bstat["trees"] > 0 or not kd), "%d disagreements" % len([d for d in dis if d[1].startswith("construction")]))
 
+
+    if pdis:
+        log("[C17] projection-tree correspondence: %d disagreeing cases; first: %s" % (len(pdis), pdis[0][1][:600]))
+        found = False
+        if not unknown_mon:
+            for ci, why in pdis[:5]:                          # search: many more queries on the disagreeing data sets
+                c = dict(cases[ci]); pt_ = parse_ptree(re.search(r"ptree=(\S+)", io[ci][0][0]).group(1))
+                c["body"] = gen_queries(rng, c, None, 300, pt_)
+                if c["kind"] == "khc2": c["body"] = ["Q " + " ".join(str(max(-120, min(120, int(x)))) for x in q.split()[1:]) for q in c["body"]]
+                ms = [(k, m) for k, m in case_failures(c, run_impl([c], "search")[0]) if ck.match_known(k) is None]
+                if ms:
+                    small = shrink(c, ms[0][0]); lines = case_lines(small)
+                    cf = ck.write_replay("case_search_proj_%d.txt" % ci, "\n".join(lines) + "\n")
+                    ck.violation(ms[0][0], {"case_file": cf, "case": lines, "monitor": [ms[0][1]], "correspondence_difference": why, "replay_cmd": "python3 tools/c17.py --replay %s" % cf},
+                                 "spec monitor fails on the implementation (found by search after the projection-tree correspondence broke: %s): %s" % (why[:200], ms[0][1]))
+                    found = True; break
+        if not found and not unknown_mon:
+            ci, why = pdis[0]; c = cases[ci]
+            def pd_(c1):
+                o, rc, e = run_impl([c1], "shrink")[0]
+                if rc != 0 or not o or "ptree=" not in o[0]: return None
+                a, rca, _ = run_cases(model, [pmodel_lines(c1, o[0])], os.path.join(tmpd, "s_model.txt"))[0]
+                return proj_differs(c1, a, [o[0]] + [x for l, x in zip(c1["body"], o[1:]) if l.startswith("Q")], count=False) if a else None
+            for l in [l for l in c["body"] if l.startswith("Q")]:               # one disagreeing query
+                w = pd_(dict(c, body=[l]))
+                if w: c, why = dict(c, body=[l]), w; break
+            idx = ddmin(list(range(len(c["pts"]))), lambda keep: len(keep) >= 1 and bool(pd_(dict(c, pts=[c["pts"][i] for i in keep]))), max_runs=120)
+            w = pd_(dict(c, pts=[c["pts"][i] for i in idx]))
+            if w: c, why = dict(c, pts=[c["pts"][i] for i in idx]), w
+            lines = case_lines(c)
+            cf = ck.write_replay("case_corr_proj_%d.txt" % ci, "\n".join(lines) + "\n")
+            ck.violation("correspondence-projection", {"case_file": cf, "case": lines, "difference": why,
+                                                       "broken": "correspondence C17Proj.plb / lc_funct / khc_funct / C17Gen (query) vs LCTree / KHCTree::squaredDistanceLowerBound, funct, BinaryTree::distanceFromPlane, IterativeNNQuery on the real tree",
+                                                       "replay_cmd": "python3 tools/c17.py --replay %s" % cf},
+                         "correspondence model vs LCTree/KHCTree no longer checks (%d cases differ: %s); the exhaustive-search monitor passes on every explored input" % (len(pdis), why[:400]), no_input=True)
+    ck.oblige("correspondence C17Proj/C17Gen (bounds, plane distances, query on the real tree, exact rational arithmetic) vs LCTree / KHCTree / IterativeNNQuery on %d trees: %d node bounds, %d plane distances, %d queries (%d with queue size and radius)"
+              % (pstat["trees"], pstat["node_bounds"], pstat["plane_distances"], pstat["queries"], pstat["trace_compared"]), not pdis and (pstat["trees"] > 0 or not pj), "%d disagreements" % len(pdis))
+
     nlines = sum(len(c["body"]) for c in cases)
     ck.cov["evaluations"] = nlines
     ck.cov["distinct_nontrivial"] = len(set((c["kind"], c["bucket"], str(c["pts"]), l) for c in cases if len(c["pts"]) >= 3 for l in c["body"]))
@@ -474,6 +657,7 @@ def main():
     ck.notes["of_which_tie_free(queue size and radius compared too)"] = ntie_free
     ck.notes["real_kd_trees_rejected_by_wf_treeb"] = notwf
     ck.notes["construction_model"] = dict(bstat, note="trees = kd data sets on which kd_build (recorded oracle) reproduced the real tree; sortoracle_same = of these, kd_build with the sorting oracle gives the same tree")
+    ck.notes["projection_tree_model"] = dict(pstat, note="trees = LC / KHC(linear) / KHC(polynomial) data sets whose real tree the extracted model reproduced; nodes_norm_gt_1 = inner nodes whose stored normal / m_normalInvNorm gives a squared norm above 1 by rounding (<= 1e-12): the Lipschitz hypothesis of the theorems holds for the exact construction model, for the rounded doubles only up to that error")
     ck.notes["real_trees_with_misplaced_points"] = sum(1 for (o, rc, e) in io if rc == 0 and o and impl_meta(o[0]) > 0)
     ck.notes["monitor_failures_by_key"] = {k: len(v) for k, v in failing.items()}
     ck.finish(explanation="theorems quantify over all data sets, all results of std::nth_element with the median property, queries and k: the construction model yields a well-formed tree whose leaves partition the index set, and the query model returns the k nearest neighbours on every well-formed tree (end to end: C17_kd_build_then_query_correct); both models are tied to the C++ by correspondence runs (construction: recorded nth_element results as oracle, every node's cut dimension / threshold / index sets compared; query: every call of next()); LC/KHC trees, bucket sizes > 1 and NearestNeighborModel are monitored against exhaustive search only")
